@@ -23,7 +23,7 @@ pub struct NodeCase {
 }
 
 fn langs() -> Vec<LangId> {
-    vec![LangId::Core, LangId::Arith, LangId::Sdql, LangId::ArrayLang, LangId::Arith2, LangId::Pay]
+    vec![LangId::Core, LangId::Arith, LangId::Sdql, LangId::ArrayLang, LangId::Arith2, LangId::Pay, LangId::Wide]
 }
 
 fn child_leaf(id: usize, args: &[Name]) -> Tm {
@@ -210,6 +210,7 @@ fn run(c: &NodeCase, obs: &mut Obs) -> Result<(), String> {
         LangId::ArrayLang => run_l::<ArrayLang>(c, obs),
         LangId::Arith2 => run_l::<Arith2>(c, obs),
         LangId::Pay => run_l::<Pay>(c, obs),
+        LangId::Wide => run_l::<Wide>(c, obs),
         _ => Err("language without direct constructors".into()),
     }
 }
